@@ -83,6 +83,21 @@ CHECKS = {
   "note": "Trusted: gosx scheduler/translation, z3; liveness = absence of deadlock under the engine's scheduler; fairness of the Go scheduler and real-time lateness are not modelled.",
   "technique": TECH + "; bounded symbolic scheduling, deadlock detection, discrete-event time for the lateness lemma",
  },
+ "C01": {
+  "text": "Bounded symbolic scheduling of the real lock code (Lock/TryLock/LockWithCtx/Unlock/lockInternal/tryLockInternal/supportTimeout) against a contract storage and a lease-timer contract written in the harness: 2 (quick) / 3 (thorough) lockers x 2 steps over {LockWithCtx, TryLock, LockWithCtx cancelled at any point, (Lock, cancelled-before), Unlock}; distinct Lockers, ONE shared Locker, two providers; storage faults (request lost / reply lost, <= 1 quick / 2 thorough) on every acquire/release-path call with orphan records lapsing at any later point; all schedules up to 1 (quick) / 2 (thorough) preemptions; plus an entry with symbolic clock and symbolic lease period. Monitor: ghost holder count == 1 at every successful acquire.",
+  "note": "Trusted: gosx scheduler/translation; the storage contract stub (what C02/C03/C06/C07 establish), the timer contract stub (what C12/C13 establish); hypothesis of the property as an assumption (the record of a live tenure does not expire); no stall >= TTL/2 between timeout.Call and future.Store. More lockers/steps/preemptions and the real storages are outside the claim.",
+  "technique": TECH + "; bounded symbolic scheduling of goroutines with symbolic fault placement",
+ },
+ "C04": {
+  "text": "Bounded symbolic scheduling of the real lock code without faults: hand-off (every one of N callers gets the lock, a lost wake-up is a deadlock), cancellation before the call / at any point (incl. parked on the local token or in the storage wait) and failing TryLock leave nothing stored and nothing held, quiescence is clean (record gone, tokens back, fresh TryLock succeeds), attempts starting after Shutdown returned never acquire; distinct and shared Lockers; 1 (quick) / 2 (thorough) preemptions.",
+  "note": "Trusted: as C01 (time abstracted away, no faults). 'After Shutdown' is read as attempts that start after Shutdown returned. Larger programs outside the claim.",
+  "technique": TECH + "; bounded symbolic scheduling of goroutines, deadlock detection",
+ },
+ "C05": {
+  "text": "Bounded symbolic scheduling with time: (1) a holder keeps the lock for R=2 (quick) / 4 (thorough) applied renewals while a contender is parked in LockWithCtx; the k-th renewal request is lost for every k in 0..R; prompt environment (time passes only when a timer fires, exactly when due); lease period in {1000,1001,2^30} ns (quick) / every value in [1000, 2^40] ns (thorough); (2) holder death after 0..R renewals: the contender acquires not before ExpiresAt and within 64 ns after it; (3) Unlock racing a renewal in flight and a re-Lock of the same Locker: at most one more renewal call, it changes nothing and arms nothing. Part (1) reproduces the recorded known finding (renewal chain stops after a transient error) and would report any other violation.",
+  "note": "Trusted: as C01 but with real lazy expiry in the storage stub and no non-expiry assumption. Real-time 'about one lease period' is decided as a bound in the prompt environment.",
+  "technique": TECH + "; bounded symbolic scheduling with discrete-event symbolic time",
+ },
 }
 
 _PENDING = "check not built yet in this session (solver-based harness planned, see DESIGN.md section 4)"
